@@ -260,6 +260,7 @@ def run(ctx):
     from x86enc import check_disp8, check_rel8_predicates
     check_disp8(db, rep, "D10-DISP8-RANGE")
     check_rel8_predicates(db, rep, "D10-DISP8-RANGE")
+    d11_emms_hook_unconditional(db, rep)
     # D7: the generated loops process exactly ex->n elements: the region counters tile n on every emitted path (shared with
     # C03 D10) - otherwise the function writes past the end of its destination arrays
     import emitsym
@@ -487,3 +488,46 @@ def emitted_branch_pairs(db, rep, rule="D5-EMITTED-BRANCH"):
                   "branch and its label lie on the same side of every save/restore event",
                   "the generated branch to %s crosses %s: the generated code skips one half of the pair and still runs the other "
                   "(e.g. ldmxcsr from a slot that was never written, or an unbalanced stack adjustment)" % (lab, "; ".join(sorted(set(bad)))), line=j.line)
+
+
+def d11_emms_hook_unconditional(db, rep, rule="D11-EMMS-HOOK"):
+    """"An empty x87/MMX register state on return": MMX registers ARE the x87 registers, on x86-64 as on i386 (long double
+    arithmetic is x87 in both ABIs).  D4 checks that the skeleton calls the target's clear_emms hook on every path; the hook
+    itself must then emit `emms` on every path from its entry to its exit - no mode, flag or word size excuses it."""
+    from flow import path_to
+    tu = db.tu("orcprogram-mmx")
+    emms = db.enum("ORC_X86_emms")
+
+    def is_emms(e):
+        return e.k == "CallExpr" and e.name and (e.name == "orc_x86_emit_emms" or (e.name.startswith("orc_x86_emit_cpuinsn") and len(e.args()) > 1 and
+                                                                                   strip_casts(e.args()[1]) is not None and strip_casts(e.args()[1]).v == emms))
+    hooks = [f for f in tu.main_functions() if "emms" in f.name]
+    if not hooks:
+        raise AnalysisBroken("no emms hook found in orcprogram-mmx.c")
+    n = 0
+    for f in hooks:
+        emits = [c for c in f.calls() if is_emms(c)]
+        if not emits:
+            continue
+        n += 1
+        rep.saw(f)
+        # a path from the entry to the function exit that passes no emms
+        seen, stack, wit = set(), [f.entry], None
+        while stack:
+            b = stack.pop()
+            if b in seen:
+                continue
+            seen.add(b)
+            blk = f.blocks[b]
+            if any(is_emms(e) for e in blk.el):
+                continue
+            if b == f.exit:
+                wit = b
+                break
+            stack.extend(s_ for s_ in blk.succs if s_ is not None)
+        rep.check(wit is None, rule, where(f), f.name, "the emms hook emits emms on every path",
+                  "%s can return without emitting `emms`: code generated for the mmx target then returns with the x87 tag word in use, and the caller's next "
+                  "x87 operation (long double arithmetic, also on x86-64) yields NaN" % f.name, line=f.line)
+    if n < 1:
+        raise AnalysisBroken("no function of orcprogram-mmx.c emits emms any more")
+    return n
